@@ -329,6 +329,7 @@ func (root *Root) ParseReader(r io.Reader) error {
 	// revert to the original version.
 	origTypes := root.types
 	origDirs := root.dirs
+	origSchema := root.schema
 	root.types = origTypes.dup()
 	root.dirs = origDirs.dup()
 
@@ -346,6 +347,7 @@ func (root *Root) ParseReader(r io.Reader) error {
 	if err != nil {
 		root.types = origTypes
 		root.dirs = origDirs
+		root.schema = origSchema
 	}
 	return err
 }
